@@ -648,7 +648,7 @@ pub fn longhash(output: &mut [u8], input: &[u8]) -> Result<(), Error> {
     // fills output with bytes from blake2b based on input
 
     assert!(output.len() > 4);
-    assert!(output.len() < u32::MAX as usize);
+    assert!(output.len() <= u32::MAX as usize);
 
     let outlen = output.len() as u32;
     let outlen_bytes = outlen.to_le_bytes();
